@@ -346,7 +346,9 @@ def legaliser_globals_and_mutable_defaults(replay=None):
 
 # ---- differential leg: fresh interpreter alone vs after random histories ---------------------------------------------------------
 
-PROBES = ["load", "die", "refine", "stog", "sat", "legal", "allocdoc", "decimal"]
+DEGENERATE = ["pads_only_on_a_die", "one_cell_griddify", "one_cell_refine", "one_cell_uniform", "one_soft_module_no_nets", "one_hard_rectangle",
+              "plain_die_1x1_grid_one_region", "whole_die_region", "recognise_one_rectangle"]
+PROBES = ["load", "die", "refine", "stog", "sat", "legal", "allocdoc", "decimal"] + ["degenerate:" + t for t in DEGENERATE]
 
 
 def _run_probe(name, hist, scale=1.0):
@@ -358,7 +360,7 @@ def _run_probe(name, hist, scale=1.0):
 
 
 @contract(P, kind="enum", functions=["(whole library: load, decompose, refine, recognise, encode, build the legaliser model)"],
-          scope="bounded: 8 probed operations x 5 (quick) / 40 (thorough) random histories, each in a fresh interpreter",
+          scope="bounded: 8 probed operations + 9 degenerate designs x 5 (quick) / 40 (thorough) random histories, each in a fresh interpreter",
           params=[dict(probe=p) for p in PROBES])
 def fresh_process_vs_after_history(probe, replay=None):
     return _differential(probe, replay)
@@ -380,7 +382,7 @@ def _differential(probe, replay=None):
     hists = [replay["history"]] if replay else ([51] if probe in NEARMISS else []) + [1000 * seed0 + 17 * k + (PROBES + NEARMISS).index(probe) for k in range(n_hist)]
     if not replay and probe in PROBES:      # histories that end with a sibling of the probe's own design (same primary description)
         hists += [f"sib{1000 * seed0 + 31 * k + PROBES.index(probe)}" for k in range(3 if tier != "thorough" else 12)]
-    if not replay and probe in PROBES:      # who defined the class-wide tolerances first, at either end of the comparable scales (added after seed C20-12)
+    if not replay:      # who defined the class-wide tolerances first, at either end of the comparable scales (added after seed C20-12)
         hists += [f"def:{op}:{ex}:{seed0}" for op in ("netlist", "diefirst", "allocfirst", "terminals") for ex in ((-3, 3) if tier != "thorough" else (-3, -1.5, 0, 1.5, 3))]
     for h in hists:
         evals += 1
